@@ -181,4 +181,19 @@ pub mod p {
             Ok(MirrorBad(a, b))
         }
     }
+
+    // R03.3: panic-capable sites on a decoding path that no rule discharges: an unwrap of an attacker-controlled
+    // Option, an index by a decoded value, unchecked arithmetic on a decoded value
+    pub struct Panicky(pub u8);
+    impl Decode for Panicky {
+        fn decode<I: Input>(input: &mut I) -> Result<Self, Error> {
+            let n = u8::decode(input)?;
+            let k = u32::decode(input)?;
+            let table = [1u8, 2, 3, 4];
+            let v = table[n as usize];
+            let w = core::num::NonZeroU8::new(n).unwrap();
+            let z = k * 3 + 1;
+            Ok(Panicky(v.wrapping_add(w.get()).wrapping_add(z as u8)))
+        }
+    }
 }
